@@ -839,10 +839,24 @@ def _validate_skip_unknown(skip_unknown):
     raise ValueError(err_str.format(skip_unknown))
 
 
+def _is_known(selector):
+  """Whether `selector` names a configurable that bindings can be applied to."""
+  parse_context = _parse_context()
+  if parse_context._dynamic_registration:  # pylint: disable=protected-access
+    # With dynamic registration a name is known iff it resolves through the
+    # current file's own imports, whether or not it has been registered yet.
+    try:
+      parse_context._resolve_selector(selector)  # pylint: disable=protected-access
+    except (NameError, AttributeError):
+      return False
+    return True
+  return bool(_REGISTRY.matching_selectors(selector))
+
+
 def _should_skip(selector, skip_unknown):
   """Checks whether `selector` should be skipped (if unknown)."""
   _validate_skip_unknown(skip_unknown)
-  if _REGISTRY.matching_selectors(selector):
+  if _is_known(selector):
     return False  # Never skip known configurables.
   if isinstance(skip_unknown, (list, tuple, set)):
     return selector in skip_unknown
